@@ -34,6 +34,7 @@ type kind struct {
 var errPlain = errors.New("plain-failure")
 var errInner = errors.New("inner-failure")
 var errExcluded = errors.New("excluded-failure")
+var errUnrelatedExclusion = errors.New("another-excluded-error-that-never-occurs")
 
 var kinds = []kind{
 	{name: "plain", reportable: true},
@@ -125,7 +126,8 @@ func (c conf) optionsCol(w int) ([]fun.OptionProvider[*fun.WorkerGroupConf], *er
 		o = append(o, fun.WorkerGroupConfIncludeContextErrors())
 	}
 	if c.exclude {
-		o = append(o, fun.WorkerGroupConfAddExcludeErrors(errExcluded))
+		// the list is built in two steps: the exclusion that matters first, an unrelated one after it
+		o = append(o, fun.WorkerGroupConfAddExcludeErrors(errExcluded), fun.WorkerGroupConfAddExcludeErrors(errUnrelatedExclusion))
 	}
 	if c.collector {
 		col = &erc.Collector{}
